@@ -381,6 +381,26 @@ func ZZC09OrTypes() {
 		}
 	}
 	v.Observe("cycle", cyc)
+	// does type 0 refer (through any member) to a type without a finite instance? (fingerprint of the
+	// known finding about examples that run into such a type)
+	reach := make([]bool, n)
+	reach[0] = true
+	for round := 0; round < n; round++ {
+		for i := 0; i < n; i++ {
+			for _, m := range members[i] {
+				if reach[i] && m < n {
+					reach[m] = true
+				}
+			}
+		}
+	}
+	unin := "all-reachable-types-inhabited"
+	for j := 0; j < n; j++ {
+		if reach[j] && !inh[j] {
+			unin = "refers-to-uninhabited-type"
+		}
+	}
+	v.Observe("inhabitation", unin)
 	cerr := root.Check()
 	if !inh[0] {
 		v.Reach("C09/or-types-infinite")
